@@ -20,9 +20,17 @@ per dgram {out, hang, raised, alive}."""
 import functools, json, os, signal, socket, struct, sys, threading, time
 
 inp = json.load(open(sys.argv[1]))
+# non-default binding: the first `busy` ports of the library's range are held by other sockets, so the
+# library's interface has to fall back to a later port of its range
+BUSY = int(inp.get('busy', 0))
+_held = []
+for _k in range(BUSY):
+    _s = socket.socket(socket.AF_INET, socket.SOCK_DGRAM)
+    _s.bind((socket.gethostbyname('localhost'), inp['port'] + _k))
+    _held.append(_s)
 import sc3
 sc3.LIB_PORT = inp['port']
-sc3.LIB_PORT_RANGE = 1
+sc3.LIB_PORT_RANGE = BUSY + 1
 sc3.init('rt', verbosity='CRITICAL')
 from sc3.base.main import main
 from sc3.base.responders import OscFunc
@@ -37,10 +45,21 @@ sac.CmdPeriod.free_servers = False
 
 WATCHDOG = float(inp.get('watchdog', 0.4))
 ifaces = [main._osc_interface]
-P1 = inp['port'] + 1
+# the port a datagram ARRIVES on is the one the socket is bound to: that is the truth the responders'
+# recv_port filters and the model use; what the interface objects report is returned separately
+P1 = ifaces[0].socket.getsockname()[1] + 1
 main.open_udp_port(P1)
-ifaces.append(osci.OscInterface._local_endpoints[(socket.gethostbyname('localhost'), P1)])
-PORTS = [i.port for i in ifaces]
+ifaces.append([i for i in osci.OscInterface._local_endpoints.values() if i is not ifaces[0] and i.socket.getsockname()[1] == P1][0])
+PORTS = [i.socket.getsockname()[1] for i in ifaces]
+REPORTED = {'iface_ports': [i.port for i in ifaces], 'lang_port': NetAddr.lang_port(),
+            'endpoints': sorted(k[1] for k in osci.OscInterface._local_endpoints)}
+BUSY_OPEN = None
+if BUSY:
+    try:                                  # opening an extra port that is in use must fail, not bind elsewhere
+        main.open_udp_port(inp['port'])
+        BUSY_OPEN = 'no error'
+    except OSError as e:
+        BUSY_OPEN = 'OSError'
 DISP = [OscFunc._default_dispatcher, OscFunc._default_matching_dispatcher]
 BASELINE = [len(d.active) for d in DISP]
 WILD = 77777
@@ -408,7 +427,7 @@ def run_udp(cases):
 
     main.add_osc_recv_func(rawf)
     s = socket.socket(socket.AF_INET, socket.SOCK_DGRAM)
-    s.bind(('127.0.0.1', inp['port'] + 2))
+    s.bind(('127.0.0.1', PORTS[1] + 1))
     res = []
     dead = False
     for n, c in enumerate(cases):
@@ -501,7 +520,7 @@ def probes():
     return out
 
 
-result = {'ports': PORTS, 'histories': [], 'leftover': []}
+result = {'ports': PORTS, 'reported': REPORTED, 'busy_open': BUSY_OPEN, 'histories': [], 'leftover': []}
 for h in inp.get('histories', []):
     o, l = run_history(h)
     result['histories'].append(o)
